@@ -151,8 +151,9 @@ pub fn run<C: Ciphersuite, L: Lab<C>>(lab: &mut L, p: &Params) {
             (3, true, "round-two share computed for another recipient")
         }
         F_OWN_ID_R1 => {
-            r1.insert(me, run.r1[&me].clone());
-            r1.remove(&sender);
+            // the sender's (valid) contribution arrives filed under the recipient's own identifier
+            let x = r1.remove(&sender).unwrap();
+            r1.insert(me, x);
             (2, false, "round-one contribution filed under the recipient's own identifier")
         }
         F_OWN_ID_R2 => {
